@@ -10,7 +10,9 @@ import IPT.Thm.C14
   3k+2 steps.  With Thm C14 (the partition is an exact cover) the merged map is the sequential map.
   The skeleton of the real function (sender cloned per worker inside the loop, original dropped
   after the loop and before join, collector appends every message) is re-read from mod.rs.
-  NOT proved: std::sync::mpsc and thread::scope themselves (modelled by their documented contract);
+  A worker that panics inside its computation (action `die`) is part of the model.
+  NOT proved: std::sync::mpsc and thread::scope themselves (modelled by their documented contract),
+  a failure of `spawn` itself (OS refuses a thread) and a panic inside the collector's `append`;
   real scheduling is exercised by the falsifier with forced worker counts and seeded perturbation.
 -/
 namespace IPT.C15
@@ -41,9 +43,48 @@ theorem count_eraseIdx [BEq P] [LawfulBEq P] (x : P) : ∀ (l : List P) (i : Nat
       simp only [List.eraseIdx_cons_succ, List.count_cons]
       omega
 
-/-- **conservation**: a step only moves a partial result from one place to the next — every
-    partial result occurs in the state as often as before -/
-theorem step_count [BEq P] [LawfulBEq P] (s s' : BState P) (a : BAct) (h : bStep s a = some s') (x : P) :
+/-- the `panicked` flag is set by `die` only and never cleared -/
+theorem step_panicked (s s' : BState P) (a : BAct) (h : bStep s a = some s') :
+    (s.panicked = true → s'.panicked = true) ∧
+    (s'.panicked = false → s.panicked = false ∧ ∀ i, a ≠ .die i) := by
+  cases a with
+  | spawn =>
+    simp only [bStep] at h
+    split at h
+    · split at h <;> simp at h
+      subst h; simp
+    · simp at h
+  | send i =>
+    simp only [bStep] at h
+    split at h
+    · split at h <;> simp at h
+      subst h; simp
+    · simp at h
+  | die i =>
+    simp only [bStep] at h
+    split at h
+    · split at h <;> simp at h
+      subst h; simp
+    · simp at h
+  | dropTx =>
+    simp only [bStep] at h
+    split at h <;> simp at h
+    subst h; simp
+  | recv =>
+    simp only [bStep] at h
+    split at h
+    · split at h <;> simp at h
+      subst h; simp
+    · simp at h
+  | close =>
+    simp only [bStep] at h
+    split at h <;> simp at h
+    subst h; simp
+
+/-- **conservation**: a step that is not a worker's panic only moves a partial result from one place
+    to the next — every partial result occurs in the state as often as before; a panic loses one -/
+theorem step_count [BEq P] [LawfulBEq P] (s s' : BState P) (a : BAct) (h : bStep s a = some s')
+    (hnd : ∀ i, a ≠ .die i) (x : P) :
     (allParts s').count x = (allParts s).count x := by
   cases a with
   | spawn =>
@@ -64,6 +105,7 @@ theorem step_count [BEq P] [LawfulBEq P] (s s' : BState P) (a : BAct) (h : bStep
       simp only [allParts, List.count_append, List.count_cons, List.count_nil]
       omega
     · simp at h
+  | die i => exact absurd rfl (hnd i)
   | dropTx =>
     simp only [bStep] at h
     split at h <;> simp at h
@@ -81,16 +123,28 @@ theorem step_count [BEq P] [LawfulBEq P] (s s' : BState P) (a : BAct) (h : bStep
     split at h <;> simp at h
     subst h; rfl
 
-theorem run_count [BEq P] [LawfulBEq P] (as : List BAct) (x : P) :
-    ∀ (s s' : BState P), bRun s as = some s' → (allParts s').count x = (allParts s).count x := by
+theorem run_panicked (as : List BAct) : ∀ (s s' : BState P), bRun s as = some s' → s'.panicked = false → s.panicked = false := by
   induction as with
-  | nil => intro s s' h; simp [bRun] at h; subst h; rfl
+  | nil => intro s s' h hp; simp [bRun] at h; subst h; exact hp
   | cons a as ih =>
-    intro s s' h
+    intro s s' h hp
     simp only [bRun] at h
     split at h
     · rename_i s1 h1
-      exact (ih s1 s' h).trans (step_count s s1 a h1 x)
+      exact ((step_panicked s s1 a h1).2 (ih s1 s' h hp)).1
+    · simp at h
+
+theorem run_count [BEq P] [LawfulBEq P] (as : List BAct) (x : P) :
+    ∀ (s s' : BState P), bRun s as = some s' → s'.panicked = false → (allParts s').count x = (allParts s).count x := by
+  induction as with
+  | nil => intro s s' h _; simp [bRun] at h; subst h; rfl
+  | cons a as ih =>
+    intro s s' h hp
+    simp only [bRun] at h
+    split at h
+    · rename_i s1 h1
+      have hp1 : s1.panicked = false := run_panicked as s1 s' h hp
+      exact (ih s1 s' h hp).trans (step_count s s1 a h1 ((step_panicked s s1 a h1).2 hp1).2 x)
     · simp at h
 
 /-- the state invariant that makes `close` safe: once the loop has ended nothing is left anywhere -/
@@ -115,6 +169,14 @@ theorem inv_step (s s' : BState P) (a : BAct) (hi : Inv s) (h : bStep s a = some
       · intro hf; simp [ht] at hf
     · simp at h
   | send i =>
+    simp only [bStep] at h
+    split at h
+    · split at h <;> simp at h
+      rename_i hd
+      subst h
+      exact ⟨fun hd' => by simp_all, i2⟩
+    · simp at h
+  | die i =>
     simp only [bStep] at h
     split at h
     · split at h <;> simp at h
@@ -159,9 +221,10 @@ theorem inv_run (as : List BAct) : ∀ (s s' : BState P), Inv s → bRun s as = 
 /-- **under every schedule, when the collector's loop has ended the merged results are exactly
     the workers' results — nothing lost, nothing duplicated** -/
 theorem done_eq_seq [BEq P] [LawfulBEq P] (parts : List P) (as : List BAct) (s : BState P)
-    (h : bRun (bInit parts) as = some s) (hd : s.done = true) : ∀ x, s.merged.count x = parts.count x := by
+    (h : bRun (bInit parts) as = some s) (hd : s.done = true) (hnp : s.panicked = false) :
+    ∀ x, s.merged.count x = parts.count x := by
   intro x
-  have hp := run_count as x _ _ h
+  have hp := run_count as x _ _ h hnp
   have hi := (inv_run as _ _ (inv_init parts) h).1 hd
   simpa [allParts, hi.1, hi.2.1, hi.2.2.1, bInit] using hp
 
@@ -169,9 +232,9 @@ theorem done_eq_seq [BEq P] [LawfulBEq P] (parts : List P) (as : List BAct) (s :
     results in any arrival order gives the same collection of (date, result) entries as appending
     them in partition order — with disjoint sub-ranges (Thm C14) that is the sequential map -/
 theorem merged_entries_eq {E : Type} [BEq E] [LawfulBEq E] (parts : List (List E)) (as : List BAct) (s : BState (List E))
-    (h : bRun (bInit parts) as = some s) (hd : s.done = true) :
+    (h : bRun (bInit parts) as = some s) (hd : s.done = true) (hnp : s.panicked = false) :
     ∀ x : E, s.merged.flatten.count x = parts.flatten.count x := by
-  have hc := done_eq_seq parts as s h hd
+  have hc := done_eq_seq parts as s h hd hnp
   have hp : s.merged.Perm parts := List.perm_iff_count.mpr hc
   intro x
   exact (List.Perm.flatten hp).count_eq x
@@ -199,6 +262,22 @@ theorem no_deadlock (parts : List P) (as : List BAct) (s : BState P)
         · exact ⟨.close, by simp [bStep, hq, hr, hts, ht, hd]⟩
         · exact ⟨.dropTx, by simp [bStep, hts, ht]⟩
 
+/-- **a worker's panic is never swallowed**: from the step in which a worker dies the state is
+    flagged, whatever happens afterwards - the collector still ends (`no_deadlock`,
+    `schedule_bound` do not depend on the flag), and the caller sees the panic instead of a
+    partial map -/
+theorem panic_is_flagged (as : List BAct) (s s1 s' : BState P) (i : Nat)
+    (h1 : bStep s (.die i) = some s1) (h : bRun s1 as = some s') : s'.panicked = true := by
+  have hs1 : s1.panicked = true := by
+    simp only [bStep] at h1
+    split at h1
+    · split at h1 <;> simp at h1
+      subst h1; rfl
+    · simp at h1
+  cases hp : s'.panicked with
+  | true => rfl
+  | false => have := run_panicked as s1 s' h hp; rw [hs1] at this; simp at this
+
 /-- progress measure: strictly decreases with every step -/
 def measure (s : BState P) : Nat :=
   3 * s.toSpawn.length + 2 * s.running.length + s.queue.length + (if s.txAlive then 1 else 0) + (if s.done then 0 else 1)
@@ -213,6 +292,16 @@ theorem step_decreases (s s' : BState P) (a : BAct) (h : bStep s a = some s') : 
       subst h; simp [measure, hp]; omega
     · simp at h
   | send i =>
+    simp only [bStep] at h
+    split at h
+    · rename_i p hp
+      split at h <;> simp at h
+      subst h
+      have hi : i < s.running.length := by
+        rcases List.getElem?_eq_some_iff.mp hp with ⟨hlt, _⟩; exact hlt
+      simp [measure, List.length_eraseIdx, hi]; omega
+    · simp at h
+  | die i =>
     simp only [bStep] at h
     split at h
     · rename_i p hp
@@ -351,14 +440,18 @@ theorem partition_mem (s e d : Int) (k : Nat) :
       rw [this]; simp; omega
 
 /-- **C15, end to end**: for every parameter set, location, range (also an empty one), worker
-    count k and EVERY schedule of the fan-in protocol that runs to the end of the collector's loop,
-    the collected map answers every date exactly as the sequential range function does -
-    the single-date result for dates in the range, nothing for any other date. -/
+    count k and EVERY schedule of the fan-in protocol that runs to the end of the collector's loop
+    without a worker panicking, the collected map answers every date exactly as the sequential
+    range function does - the single-date result for dates in the range, nothing for any other
+    date.  (A worker panics exactly when a date of its block makes the single-date function panic;
+    the sequential function then panics on that date too, and `thread::scope` re-raises the
+    worker's panic after the collector has ended - `panic_is_flagged`, `no_deadlock` and
+    `schedule_bound` cover those schedules: no hang, and no map is returned.) -/
 theorem parallel_eq_sequential (p : Params α) (loc : Location α) (s e : Int) (k : Nat)
     (as : List BAct) (st : BState (Int × Int))
-    (h : bRun (bInit (partition s e k)) as = some st) (hd : st.done = true) (d : Int) :
+    (h : bRun (bInit (partition s e k)) as = some st) (hd : st.done = true) (hnp : st.panicked = false) (d : Int) :
     (collected p loc st.merged).lookup d = (C14.rngModel p loc s e).lookup d := by
-  have hc := done_eq_seq (partition s e k) as st h hd
+  have hc := done_eq_seq (partition s e k) as st h hd hnp
   have hp : st.merged.Perm (partition s e k) := List.perm_iff_count.mpr hc
   rw [lookup_collected, lookup_rng]
   have hm : (∃ b ∈ st.merged, b.1 ≤ d ∧ d ≤ b.2) ↔ (∃ b ∈ partition s e k, b.1 ≤ d ∧ d ≤ b.2) := by
@@ -370,9 +463,9 @@ theorem parallel_eq_sequential (p : Params α) (loc : Location α) (s e : Int) (
 /-- the collected map has one entry per date of the range: as many entries as the sequential map -/
 theorem collected_length (p : Params α) (loc : Location α) (s e : Int) (k : Nat)
     (as : List BAct) (st : BState (Int × Int))
-    (h : bRun (bInit (partition s e k)) as = some st) (hd : st.done = true) :
+    (h : bRun (bInit (partition s e k)) as = some st) (hd : st.done = true) (hnp : st.panicked = false) :
     (collected p loc st.merged).length = (collected p loc (partition s e k)).length := by
-  have hc := done_eq_seq (partition s e k) as st h hd
+  have hc := done_eq_seq (partition s e k) as st h hd hnp
   have hp : st.merged.Perm (partition s e k) := List.perm_iff_count.mpr hc
   exact (hp.flatMap_right _).length_eq
 
@@ -384,5 +477,10 @@ example : (bRun (bInit [1, 2]) [.spawn, .send 0, .recv, .spawn, .dropTx, .send 0
 -- and one in which the second worker overtakes the first
 example : (bRun (bInit [1, 2]) [.spawn, .spawn, .send 1, .dropTx, .recv, .send 0, .recv, .close]).map
     (fun s => (s.merged, s.done)) = some ([2, 1], true) := by decide
+
+-- and one in which the first worker panics: the collector still ends, with the other worker's result
+-- only, and the state is flagged (the caller sees the panic, not this partial map)
+example : (bRun (bInit [1, 2]) [.spawn, .spawn, .die 0, .dropTx, .send 0, .recv, .close]).map
+    (fun s => (s.merged, s.done, s.panicked)) = some ([2], true, true) := by decide
 
 end IPT.C15
